@@ -480,6 +480,11 @@ func (t *tlink) handle(cs *connState) message {
 			return linux.EINVAL
 		}
 
+		// Don't link a deleted target: its path may name a different file by now.
+		if refTarget.isDeleted() {
+			return linux.EINVAL
+		}
+
 		// Not allowed on open directories.
 		if ref.opened {
 			return linux.EINVAL
